@@ -12,3 +12,7 @@ func (g *Galaxy) VerifSetPortMapping(h *portmapping.PortMappingHandler) { g.pmha
 
 // VerifCleanPort is the port-clean callback galaxy hands to the GC (cleanIPtables).
 func (g *Galaxy) VerifCleanPort(containerID string) error { return g.cleanIPtables(containerID) }
+
+// VerifStartPortMapping runs the start-up port-mapping sync of Start (setupIPtables: list the node's pods, re-open
+// their host ports, SetupPortMappingForAllPods) on this instance.
+func (g *Galaxy) VerifStartPortMapping() error { return g.setupIPtables() }
